@@ -32,7 +32,8 @@ EXPLANATION = (
     'R3 decode_struct_fields iterates the known field table and reads the input only by known '
     'name; R4 Attribute.__get__ yields None/default for an unset slot; R5 under strict each '
     'kind of unknown material reaches a ValidationError. Decides the structural part named in '
-    'DESIGN 4/C07, not the two-spec behaviour.')
+    'DESIGN 4/C07, not the two-spec behaviour.'
+    ' R7: introducing or inlining an alias is compatible only if an aliased reference keeps its Nullable wrap and bounds: generate_validator_constructor wraps Nullable on every return path (shared with C08-R3).')
 ASSUMPTIONS = [
     'CPython ast of the current working tree is the program',
     'structured control flow only (no exceptions used for control inside the analysed functions '
@@ -377,3 +378,6 @@ def run(pm, ctx):
               '_generate_union_class_vars emits both forms of the marker', g.loc,
               msg='expected one `_catch_all = None` and one named emission, found %r' % seen,
               key='C07-R6|%s|forms' % g.qualname)
+    ctx.rule('C07-R7', 'generated validator constructors keep nullability through aliases and every declared bound')
+    from .C08 import validator_construction
+    validator_construction(pm, ctx, 'C07-R7')
